@@ -115,30 +115,78 @@ def sample_indices(n, k, seed):
 
 
 def explore_configs(configs, make_harness, split_depth=4, nproc=None,
-                    max_paths=400000, max_depth=600):
-    """Explore make_harness(cfg) for every cfg, splitting each path tree into
-    root prefixes and spreading (cfg, root) pairs over the pool.
+                    max_paths=400000, max_depth=600, slice_s=6.0):
+    """Explore make_harness(cfg) for every cfg on a process pool.
+
+    The path tree of each configuration is first split into root prefixes; every
+    task explores one prefix for at most `slice_s` seconds and hands the prefixes
+    it has not reached back to the pool (dynamic balancing: one deep subtree does
+    not keep a single worker busy while the others idle).
 
     Returns {cfg_index: (results, Stats)}.
     """
     configs = list(configs)
+    nproc = nproc or NPROC
 
     def roots_of(i):
         return i, split_roots(make_harness(configs[i]), split_depth,
                               max_depth=max_depth)
-    root_lists = pmap(roots_of, range(len(configs)), nproc)
-    tasks = [(i, r) for i, roots in root_lists for r in roots]
 
     def run(task):
-        i, root = task
-        results, st = explore(make_harness(configs[i]), max_paths=max_paths,
-                              max_depth=max_depth, roots=[root])
-        return i, results, st.as_dict()
-    outs = pmap(run, tasks, nproc)
+        i, roots = task
+        results, st, left = explore(make_harness(configs[i]), max_paths=max_paths,
+                                    max_depth=max_depth, roots=roots,
+                                    yield_at=time.time() + slice_s)
+        return i, results, st.as_dict(), left
     acc = {i: ([], Stats()) for i in range(len(configs))}
-    for i, results, d in outs:
-        acc[i][0].extend(results)
-        s = Stats()
-        s.__dict__.update(d)
-        acc[i][1].add(s)
+    key = len(_FN)
+    _FN[key] = run
+    _FN[key + 1] = roots_of
+    errors = []
+    try:
+        ctx = mp.get_context('fork')
+        with ctx.Pool(nproc) as pool:
+            inflight = [pool.apply_async(_worker, ((key + 1, i),)) for i in range(len(configs))]
+            tasks = []
+            for h in inflight:
+                kind, val = h.get()
+                if kind != 'ok':
+                    errors.append((kind, val))
+                    continue
+                i, roots = val
+                tasks += [(i, [r]) for r in roots]
+            pending = [pool.apply_async(_worker, ((key, t),)) for t in tasks] if not errors else []
+            total = 0
+            while pending:
+                h = pending.pop(0)
+                if not h.ready():
+                    pending.append(h)
+                    h.wait(0.05)
+                    continue
+                kind, val = h.get()
+                if kind != 'ok':
+                    errors.append((kind, val))
+                    continue
+                i, results, d, left = val
+                acc[i][0].extend(results)
+                s = Stats()
+                s.__dict__.update(d)
+                acc[i][1].add(s)
+                total += d.get('paths', 0) + d.get('aborted', 0)
+                if total > max_paths * max(1, len(configs)):
+                    errors.append(('harness', 'path budget exhausted'))
+                    break
+                if left and not errors:
+                    # hand the unexplored prefixes back, a few per task
+                    k = max(1, len(left) // 4)
+                    for j in range(0, len(left), k):
+                        pending.append(pool.apply_async(_worker, ((key, (i, left[j:j + k])),)))
+            if errors:
+                pool.terminate()
+    finally:
+        _FN.pop(key, None)
+        _FN.pop(key + 1, None)
+    if errors:
+        kind, val = errors[0]
+        raise HarnessError(val if kind == 'harness' else 'worker exception: ' + val)
     return acc
